@@ -274,3 +274,22 @@ package interval
 //@   requires x != nil && implies(!emptyRp(x), true) && implies(x[0] != nil && y[0] != nil, x[0] != y[0]) && implies(x[1] != nil && y[1] != nil, x[1] != y[1]) && implies(x[0] != nil && y[1] != nil, x[0] != y[1]) && implies(x[1] != nil && y[0] != nil, x[1] != y[0]) && implies(x[0] != nil, x[0] != x[1])
 //@   ensures[contains] forallm(a, implies(old(inRp(x, a)) || old(inR(y, a)), inRp(x, a)))
 //@   modifies mem(x), bigval(x[0]), bigval(x[1])
+
+// ---- bit helpers of And / Or (over unbounded integers, with pow2 uninterpreted) ----
+// The package-level table smallBitMasks holds 2^n - 1 for n = 0..8 (assumed: it is
+// built by the package initialiser from the literals 0x00, 0x01, 0x03, .. 0xFF).
+//@ axiom smallmasks(n int): implies(0 <= n && n < 9, smallBitMasks[n] != nil && bigval(smallBitMasks[n]) == pow2(math(n)) - 1)
+
+// bitMask: "returns ((1<<n) - 1), where n is the largest of n0 and n1".
+//@ func bitMask
+//@   prop C06
+//@   requires (0 <= n0 || 0 <= n1) && n0 <= 1073741824 && n1 <= 1073741824
+//@   ensures result != nil && bigval(result) == pow2(math(ite(n0 < n1, n1, n0))) - 1
+
+// bitFillRight: i becomes 2^BitLen(i) - 1, the smallest all-ones value >= i.
+//@ func bitFillRight
+//@   prop C06
+//@   requires i != nil && i != one && bigval(i) >= 0 && bigval(i) < pow2(65535)
+//@   ensures old(bigval(i)) <= bigval(i) && implies(old(bigval(i)) == 0, bigval(i) == 0)
+//@   ensures[allones] existsm(n, 0 <= n && n <= 65535 && bigval(i) == pow2(n) - 1 && implies(old(bigval(i)) > 0, n >= 1 && pow2(n - 1) <= old(bigval(i))))
+//@   modifies bigval(i)
